@@ -108,7 +108,8 @@ R5 ==
         /\ UNCHANGED <<rbuf, rterm>>
   /\ UNCHANGED <<sc, ctx, spc, sop, sleft, rleft, started, rq, ready, resp, pw, pending,
                  inflight, reqEOF, hpc, hr, hs, hsawEOF, hctx, hdrs, aborted, bodyClosed>>
-CloseRespBegin == /\ rpc = "idle" /\ started /\ (rleft = 0 \/ err # "none") /\ spc \in {"sdone", "idle"} /\ rpc' = "c1"
+\* (the response side may be closed before everything was received)
+CloseRespBegin == /\ rpc = "idle" /\ started /\ spc \in {"sdone", "idle"} /\ rpc' = "c1"
                   /\ UNCHANGED <<sc, ctx, spc, sop, sleft, rleft, lib, env, log>>
 C1 == /\ rpc = "c1" /\ ready
       /\ bodyClosed' = (resp = "ok") /\ rpc' = "rdone" /\ Log(<<"closeresp", "ok">>)
@@ -119,8 +120,12 @@ QDoOK  == /\ rq = "doing" /\ hdrs /\ resp' = "ok" /\ rq' = "validating"
           /\ UNCHANGED <<usr, started, ready, err, pw, prClosed, pending, env, log>>
 QDoErr == /\ rq = "doing" /\ aborted /\ SetErr("ctx") /\ rq' = "closing"
           /\ UNCHANGED <<usr, started, ready, resp, pw, pending, env, log>>
+\* validateResponse; a trailers-only error response (gRPC, gRPC-Web: the handler failed before sending
+\* anything) is recognised here already and recorded as the call's sticky error
 QVal   == /\ rq = "validating" /\ rq' = "closing"
-          /\ UNCHANGED <<usr, started, ready, resp, err, pw, prClosed, pending, env, log>>
+          /\ \/ UNCHANGED <<err, prClosed>>
+             \/ /\ rterm = "err" /\ hs = 0 /\ SetErr("server")
+          /\ UNCHANGED <<usr, started, ready, resp, pw, pending, env, log>>
 QReady == /\ rq = "closing" /\ ready' = TRUE /\ rq' = "done"
           /\ UNCHANGED <<usr, started, resp, err, pw, prClosed, pending, env, log>>
 
